@@ -19,6 +19,8 @@ type c04Case struct {
 	Tables []gen.TableSpec `json:"tables"`
 	Q      gen.Q           `json:"q"`
 	SQL    string          `json:"sql"`
+	// Shape: labels of the generated shape (informational; they become classes)
+	Shape []string `json:"shape,omitempty"`
 }
 
 func sortedLines(out string) []string {
@@ -98,6 +100,8 @@ func c04Prop(c c04Case) ev.Outcome {
 		}
 		o.Classes = append(o.Classes, timeClasses(c.Tables, c.Q)...)
 		o.Classes = append(o.Classes, unusedAggClasses(c.Q)...)
+		o.Classes = append(o.Classes, listClasses(c.Tables, c.Q)...)
+		o.Classes = append(o.Classes, c.Shape...)
 		return o, true
 	}
 	if o, ok := judge(fastRun); ok {
@@ -110,35 +114,52 @@ func c04Prop(c c04Case) ev.Outcome {
 func TestC04(t *testing.T) {
 	r := ev.New("C04", "exploration",
 		"widest query grammar (single-source, 2-3 way inner/LOOKUP/LEFT/RIGHT/OUTER joins whose branches are tables, filtering/projecting/DISTINCT subqueries or range(), WHERE above joins, GROUP BY above joins, projections leaving columns unused, CTEs, grouping subqueries whose outer query leaves 2 or more aggregates unused) over generated CSV (incl. quoted multi-line fields; "+
-			"CSV tables carry a Time column in about a third of the cases (RFC3339 cells from a small pool of instants incl. pre-1970 and year 2262, each written in one of the spellings Z/+02:00/-04:00/+05:30/-00:00/+00:00, so one instant under several spellings is frequent); Time columns are join keys (a fifth of the join cases), GROUP BY / DISTINCT / ORDER BY keys, comparison operands and arguments of count/max/array_agg) and JSON tables, plus queries that read no column at all (count(*) / constants); only total expressions (no division: pushdown may legitimately change which rows an erroring expression sees); "+
+			"CSV tables carry a Time column in about a third of the cases (RFC3339 cells from a small pool of instants incl. pre-1970 and year 2262, each written in one of the spellings Z/+02:00/-04:00/+05:30/-00:00/+00:00, so one instant under several spellings is frequent); Time columns are join keys (a fifth of the join cases), GROUP BY / DISTINCT / ORDER BY keys, comparison operands and arguments of count/max/array_agg) and JSON tables, plus queries that read no column at all (count(*) / constants); three targeted shapes: a WHERE above a nested total ORDER BY + LIMIT (FROM-subquery or WITH, plain or expression select lists); a grouping subquery whose aggregates are ALL unused above (outer query = its keys, DISTINCT keys, or count(*)) over a retracting input (nested GROUP BY ... TRIGGER COUNTING 1 whose intermediate counts are the group keys, or a LEFT/RIGHT/OUTER JOIN below it); DISTINCT over such a triggered grouping under ORDER BY; about a quarter of the JSON tables carry one list column ([Float] or [String]; cells from a pool of prefix-related lists [] [1] [1,2] [1,2,3] [1,2,3,4] [1,3] [2] [2,1], so proper-prefix pairs with length gaps of 1 and >=2 are the normal case, plus twin rows that differ only in a prefix-related list cell); only total expressions (no division: pushdown may legitimately change which rows an erroring expression sees); "+
 			"oracle: the default optimised run and --optimize=false give the same exit status and the same multiset of rows, printed times compared as instants (same sequence under ORDER BY; queries with outer joins always carry an ORDER BY over all output columns so the eager output is consolidated). "+
 			"non-trivial: non-empty result and a filter/join/subquery/CTE for the optimiser to work on. distinct=(SQL, files)")
 	ev.Check(t, r, "optimised_vs_not", ev.N(6000, 100000), func(t *rapid.T) c04Case {
 		var tables []gen.TableSpec
 		var q gen.Q
-		shape := rapid.IntRange(0, 5).Draw(t, "shape")
+		var shapeLabels []string
+		shape := rapid.IntRange(0, 8).Draw(t, "shape")
 		if shape == 5 {
 			// a query that reads no column of the file at all (every column is pruned by the optimiser)
-			tbl := gen.Table(t, gen.TableOpts{Name: "ta", MinRows: 0, Time: true})
+			tbl := gen.Table(t, gen.TableOpts{Name: "ta", MinRows: 0, Time: true, List: true})
 			tables = []gen.TableSpec{tbl}
 			q = gen.Q{From: gen.Src{Kind: "table", Table: tbl.File(), Alias: "t"}, Grouped: true, Items: []gen.Item{{Agg: "count", Star: true, Alias: "n"}}}
 			if rapid.Bool().Draw(t, "const") {
 				q = gen.Q{From: gen.Src{Kind: "table", Table: tbl.File(), Alias: "t"}, Items: []gen.Item{{E: gen.E{Op: "lit", Kind: "int", Lit: &gen.JV{K: "int", I: 1}}, Alias: "one"}}}
 			}
 		}
+		noDiv := gen.ExprOpts{NoDiv: true}
 		switch shape {
 		case 5:
+		case 6:
+			// an outer WHERE above a nested ORDER BY (total) + LIMIT: the filter must stay above the cut
+			tbl := gen.Table(t, gen.TableOpts{Name: "ta", MinRows: 2, MaxRows: 12, Time: true, List: true})
+			tables = []gen.TableSpec{tbl}
+			q = gen.LimitedSubFilter(t, tbl, gen.SubFilterOpts{Expr: noDiv}, "q")
+			shapeLabels = []string{"filter_above_nested_order_by_limit"}
+		case 7:
+			// a grouping whose aggregates are all unused above it, over a retracting input (TRIGGER COUNTING 1 underneath)
+			tbl := gen.Table(t, gen.TableOpts{Name: "ta", MinRows: 1, MaxRows: 12, NoLong: true, Time: true, List: true})
+			tables = []gen.TableSpec{tbl}
+			q, shapeLabels = gen.UnusedAggsOverTrigger(t, tbl, noDiv, "q")
+		case 8:
+			// ... over an outer join underneath
+			tables = gen.JoinTablesWith(t, 2, gen.JoinTablesOpts{Time: true, List: true})
+			q, shapeLabels = gen.UnusedAggsOverOuterJoin(t, tables, noDiv, "q")
 		case 0:
-			tbl := gen.Table(t, gen.TableOpts{Name: "ta", MinRows: 1, Time: true})
+			tbl := gen.Table(t, gen.TableOpts{Name: "ta", MinRows: 1, Time: true, List: true})
 			tables = []gen.TableSpec{tbl}
 			q = gen.Single(t, tbl, gen.QOpts{Depth: 2, ExprDepth: 3, Expr: gen.ExprOpts{NoDiv: true}}, "q")
 		case 1:
-			tbl := gen.Table(t, gen.TableOpts{Name: "ta", MinRows: 1, MinCols: 2, Time: true})
+			tbl := gen.Table(t, gen.TableOpts{Name: "ta", MinRows: 1, MinCols: 2, Time: true, List: true})
 			tables = []gen.TableSpec{tbl}
 			q = gen.GroupQuery(t, tbl, gen.GroupOpts{Expr: gen.ExprOpts{NoDiv: true}}, "q")
 		default:
 			n := rapid.IntRange(2, 3).Draw(t, "ntables")
-			tables = gen.JoinTablesOpt(t, n, true)
+			tables = gen.JoinTablesWith(t, n, gen.JoinTablesOpts{Time: true, List: true})
 			q = gen.Wide(t, tables, "q")
 		}
 		// CSV cells with an embedded newline (a quoted multi-line field): records are not physical lines
@@ -154,6 +175,6 @@ func TestC04(t *testing.T) {
 				}
 			}
 		}
-		return c04Case{Tables: tables, Q: q, SQL: q.SQL()}
+		return c04Case{Tables: tables, Q: q, SQL: q.SQL(), Shape: shapeLabels}
 	}, c04Prop)
 }
